@@ -28,7 +28,7 @@ where
         *request_.method_mut() = conjure_http::private::http::Method::GET;
         let mut path_ = conjure_http::private::UriBuilder::new();
         path_.push_literal("/catalog/fileSystems");
-        *request_.uri_mut() = path_.build();
+        *request_.uri_mut() = path_.try_build()?;
         conjure_http::private::encode_header_auth(&mut request_, auth_);
         conjure_http::private::encode_serializable_response_headers(&mut request_);
         request_
@@ -57,7 +57,7 @@ where
         *request_.method_mut() = conjure_http::private::http::Method::POST;
         let mut path_ = conjure_http::private::UriBuilder::new();
         path_.push_literal("/catalog/datasets");
-        *request_.uri_mut() = path_.build();
+        *request_.uri_mut() = path_.try_build()?;
         conjure_http::private::encode_header_auth(&mut request_, auth_);
         conjure_http::private::encode_header(
             &mut request_,
@@ -91,7 +91,7 @@ where
         let mut path_ = conjure_http::private::UriBuilder::new();
         path_.push_literal("/catalog/datasets");
         path_.push_path_parameter(&dataset_rid);
-        *request_.uri_mut() = path_.build();
+        *request_.uri_mut() = path_.try_build()?;
         conjure_http::private::encode_header_auth(&mut request_, auth_);
         conjure_http::private::encode_serializable_response_headers(&mut request_);
         request_
@@ -119,7 +119,7 @@ where
         path_.push_literal("/catalog/datasets");
         path_.push_path_parameter(&dataset_rid);
         path_.push_literal("/raw");
-        *request_.uri_mut() = path_.build();
+        *request_.uri_mut() = path_.try_build()?;
         conjure_http::private::encode_header_auth(&mut request_, auth_);
         conjure_http::private::encode_binary_response_headers(&mut request_);
         request_
@@ -146,7 +146,7 @@ where
         path_.push_literal("/catalog/datasets");
         path_.push_path_parameter(&dataset_rid);
         path_.push_literal("/raw-aliased");
-        *request_.uri_mut() = path_.build();
+        *request_.uri_mut() = path_.try_build()?;
         conjure_http::private::encode_header_auth(&mut request_, auth_);
         conjure_http::private::encode_binary_response_headers(&mut request_);
         request_
@@ -173,7 +173,7 @@ where
         path_.push_literal("/catalog/datasets");
         path_.push_path_parameter(&dataset_rid);
         path_.push_literal("/raw-maybe");
-        *request_.uri_mut() = path_.build();
+        *request_.uri_mut() = path_.try_build()?;
         conjure_http::private::encode_header_auth(&mut request_, auth_);
         conjure_http::private::encode_binary_response_headers(&mut request_);
         request_
@@ -200,7 +200,7 @@ where
         path_.push_literal("/catalog/datasets");
         path_.push_path_parameter(&dataset_rid);
         path_.push_literal("/string-aliased");
-        *request_.uri_mut() = path_.build();
+        *request_.uri_mut() = path_.try_build()?;
         conjure_http::private::encode_header_auth(&mut request_, auth_);
         conjure_http::private::encode_serializable_response_headers(&mut request_);
         request_
@@ -228,7 +228,7 @@ where
         *request_.method_mut() = conjure_http::private::http::Method::POST;
         let mut path_ = conjure_http::private::UriBuilder::new();
         path_.push_literal("/catalog/datasets/upload-raw");
-        *request_.uri_mut() = path_.build();
+        *request_.uri_mut() = path_.try_build()?;
         conjure_http::private::encode_header_auth(&mut request_, auth_);
         conjure_http::private::encode_empty_response_headers(&mut request_);
         request_
@@ -256,7 +256,7 @@ where
         *request_.method_mut() = conjure_http::private::http::Method::POST;
         let mut path_ = conjure_http::private::UriBuilder::new();
         path_.push_literal("/catalog/datasets/upload-raw-aliased");
-        *request_.uri_mut() = path_.build();
+        *request_.uri_mut() = path_.try_build()?;
         conjure_http::private::encode_header_auth(&mut request_, auth_);
         conjure_http::private::encode_empty_response_headers(&mut request_);
         request_
@@ -283,7 +283,7 @@ where
         path_.push_literal("/catalog/datasets");
         path_.push_path_parameter(&dataset_rid);
         path_.push_literal("/branches");
-        *request_.uri_mut() = path_.build();
+        *request_.uri_mut() = path_.try_build()?;
         conjure_http::private::encode_header_auth(&mut request_, auth_);
         conjure_http::private::encode_serializable_response_headers(&mut request_);
         request_
@@ -313,7 +313,7 @@ where
         path_.push_literal("/catalog/datasets");
         path_.push_path_parameter(&dataset_rid);
         path_.push_literal("/branchesDeprecated");
-        *request_.uri_mut() = path_.build();
+        *request_.uri_mut() = path_.try_build()?;
         conjure_http::private::encode_header_auth(&mut request_, auth_);
         conjure_http::private::encode_serializable_response_headers(&mut request_);
         request_
@@ -344,7 +344,7 @@ where
         path_.push_literal("/branches");
         path_.push_path_parameter(&branch);
         path_.push_literal("/resolve");
-        *request_.uri_mut() = path_.build();
+        *request_.uri_mut() = path_.try_build()?;
         conjure_http::private::encode_header_auth(&mut request_, auth_);
         conjure_http::private::encode_serializable_response_headers(&mut request_);
         request_
@@ -372,7 +372,7 @@ where
         path_.push_literal("/catalog/datasets");
         path_.push_path_parameter(&dataset_rid);
         path_.push_literal("/testParam");
-        *request_.uri_mut() = path_.build();
+        *request_.uri_mut() = path_.try_build()?;
         conjure_http::private::encode_header_auth(&mut request_, auth_);
         conjure_http::private::encode_serializable_response_headers(&mut request_);
         request_
@@ -410,7 +410,7 @@ where
         path_.push_query_parameter("implicit", &implicit);
         path_.push_set_query_parameter("setEnd", &set_end);
         path_.push_optional_query_parameter("optionalEnd", &optional_end);
-        *request_.uri_mut() = path_.build();
+        *request_.uri_mut() = path_.try_build()?;
         conjure_http::private::encode_header_auth(&mut request_, auth_);
         conjure_http::private::encode_serializable_response_headers(&mut request_);
         request_
@@ -447,7 +447,7 @@ where
         path_.push_query_parameter("implicit", &implicit);
         path_.push_set_query_parameter("setEnd", &set_end);
         path_.push_optional_query_parameter("optionalEnd", &optional_end);
-        *request_.uri_mut() = path_.build();
+        *request_.uri_mut() = path_.try_build()?;
         conjure_http::private::encode_header_auth(&mut request_, auth_);
         conjure_http::private::encode_empty_response_headers(&mut request_);
         request_
@@ -471,7 +471,7 @@ where
         *request_.method_mut() = conjure_http::private::http::Method::GET;
         let mut path_ = conjure_http::private::UriBuilder::new();
         path_.push_literal("/catalog/boolean");
-        *request_.uri_mut() = path_.build();
+        *request_.uri_mut() = path_.try_build()?;
         conjure_http::private::encode_header_auth(&mut request_, auth_);
         conjure_http::private::encode_serializable_response_headers(&mut request_);
         request_
@@ -495,7 +495,7 @@ where
         *request_.method_mut() = conjure_http::private::http::Method::GET;
         let mut path_ = conjure_http::private::UriBuilder::new();
         path_.push_literal("/catalog/double");
-        *request_.uri_mut() = path_.build();
+        *request_.uri_mut() = path_.try_build()?;
         conjure_http::private::encode_header_auth(&mut request_, auth_);
         conjure_http::private::encode_serializable_response_headers(&mut request_);
         request_
@@ -519,7 +519,7 @@ where
         *request_.method_mut() = conjure_http::private::http::Method::GET;
         let mut path_ = conjure_http::private::UriBuilder::new();
         path_.push_literal("/catalog/integer");
-        *request_.uri_mut() = path_.build();
+        *request_.uri_mut() = path_.try_build()?;
         conjure_http::private::encode_header_auth(&mut request_, auth_);
         conjure_http::private::encode_serializable_response_headers(&mut request_);
         request_
@@ -546,7 +546,7 @@ where
         *request_.method_mut() = conjure_http::private::http::Method::POST;
         let mut path_ = conjure_http::private::UriBuilder::new();
         path_.push_literal("/catalog/optional");
-        *request_.uri_mut() = path_.build();
+        *request_.uri_mut() = path_.try_build()?;
         conjure_http::private::encode_header_auth(&mut request_, auth_);
         conjure_http::private::encode_serializable_response_headers(&mut request_);
         request_
@@ -575,7 +575,7 @@ where
         path_.push_literal("/catalog/optional-integer-double");
         path_.push_optional_query_parameter("maybeInteger", &maybe_integer);
         path_.push_optional_query_parameter("maybeDouble", &maybe_double);
-        *request_.uri_mut() = path_.build();
+        *request_.uri_mut() = path_.try_build()?;
         conjure_http::private::encode_header_auth(&mut request_, auth_);
         conjure_http::private::encode_empty_response_headers(&mut request_);
         request_
@@ -622,7 +622,7 @@ where
         *request_.method_mut() = conjure_http::private::http::Method::GET;
         let mut path_ = conjure_http::private::UriBuilder::new();
         path_.push_literal("/catalog/fileSystems");
-        *request_.uri_mut() = path_.build();
+        *request_.uri_mut() = path_.try_build()?;
         conjure_http::private::encode_header_auth(&mut request_, auth_);
         conjure_http::private::encode_serializable_response_headers(&mut request_);
         request_
@@ -648,7 +648,7 @@ where
         *request_.method_mut() = conjure_http::private::http::Method::POST;
         let mut path_ = conjure_http::private::UriBuilder::new();
         path_.push_literal("/catalog/datasets");
-        *request_.uri_mut() = path_.build();
+        *request_.uri_mut() = path_.try_build()?;
         conjure_http::private::encode_header_auth(&mut request_, auth_);
         conjure_http::private::encode_header(
             &mut request_,
@@ -682,7 +682,7 @@ where
         let mut path_ = conjure_http::private::UriBuilder::new();
         path_.push_literal("/catalog/datasets");
         path_.push_path_parameter(&dataset_rid);
-        *request_.uri_mut() = path_.build();
+        *request_.uri_mut() = path_.try_build()?;
         conjure_http::private::encode_header_auth(&mut request_, auth_);
         conjure_http::private::encode_serializable_response_headers(&mut request_);
         request_
@@ -709,7 +709,7 @@ where
         path_.push_literal("/catalog/datasets");
         path_.push_path_parameter(&dataset_rid);
         path_.push_literal("/raw");
-        *request_.uri_mut() = path_.build();
+        *request_.uri_mut() = path_.try_build()?;
         conjure_http::private::encode_header_auth(&mut request_, auth_);
         conjure_http::private::encode_binary_response_headers(&mut request_);
         request_
@@ -736,7 +736,7 @@ where
         path_.push_literal("/catalog/datasets");
         path_.push_path_parameter(&dataset_rid);
         path_.push_literal("/raw-aliased");
-        *request_.uri_mut() = path_.build();
+        *request_.uri_mut() = path_.try_build()?;
         conjure_http::private::encode_header_auth(&mut request_, auth_);
         conjure_http::private::encode_binary_response_headers(&mut request_);
         request_
@@ -763,7 +763,7 @@ where
         path_.push_literal("/catalog/datasets");
         path_.push_path_parameter(&dataset_rid);
         path_.push_literal("/raw-maybe");
-        *request_.uri_mut() = path_.build();
+        *request_.uri_mut() = path_.try_build()?;
         conjure_http::private::encode_header_auth(&mut request_, auth_);
         conjure_http::private::encode_binary_response_headers(&mut request_);
         request_
@@ -790,7 +790,7 @@ where
         path_.push_literal("/catalog/datasets");
         path_.push_path_parameter(&dataset_rid);
         path_.push_literal("/string-aliased");
-        *request_.uri_mut() = path_.build();
+        *request_.uri_mut() = path_.try_build()?;
         conjure_http::private::encode_header_auth(&mut request_, auth_);
         conjure_http::private::encode_serializable_response_headers(&mut request_);
         request_
@@ -818,7 +818,7 @@ where
         *request_.method_mut() = conjure_http::private::http::Method::POST;
         let mut path_ = conjure_http::private::UriBuilder::new();
         path_.push_literal("/catalog/datasets/upload-raw");
-        *request_.uri_mut() = path_.build();
+        *request_.uri_mut() = path_.try_build()?;
         conjure_http::private::encode_header_auth(&mut request_, auth_);
         conjure_http::private::encode_empty_response_headers(&mut request_);
         request_
@@ -846,7 +846,7 @@ where
         *request_.method_mut() = conjure_http::private::http::Method::POST;
         let mut path_ = conjure_http::private::UriBuilder::new();
         path_.push_literal("/catalog/datasets/upload-raw-aliased");
-        *request_.uri_mut() = path_.build();
+        *request_.uri_mut() = path_.try_build()?;
         conjure_http::private::encode_header_auth(&mut request_, auth_);
         conjure_http::private::encode_empty_response_headers(&mut request_);
         request_
@@ -873,7 +873,7 @@ where
         path_.push_literal("/catalog/datasets");
         path_.push_path_parameter(&dataset_rid);
         path_.push_literal("/branches");
-        *request_.uri_mut() = path_.build();
+        *request_.uri_mut() = path_.try_build()?;
         conjure_http::private::encode_header_auth(&mut request_, auth_);
         conjure_http::private::encode_serializable_response_headers(&mut request_);
         request_
@@ -902,7 +902,7 @@ where
         path_.push_literal("/catalog/datasets");
         path_.push_path_parameter(&dataset_rid);
         path_.push_literal("/branchesDeprecated");
-        *request_.uri_mut() = path_.build();
+        *request_.uri_mut() = path_.try_build()?;
         conjure_http::private::encode_header_auth(&mut request_, auth_);
         conjure_http::private::encode_serializable_response_headers(&mut request_);
         request_
@@ -932,7 +932,7 @@ where
         path_.push_literal("/branches");
         path_.push_path_parameter(&branch);
         path_.push_literal("/resolve");
-        *request_.uri_mut() = path_.build();
+        *request_.uri_mut() = path_.try_build()?;
         conjure_http::private::encode_header_auth(&mut request_, auth_);
         conjure_http::private::encode_serializable_response_headers(&mut request_);
         request_
@@ -959,7 +959,7 @@ where
         path_.push_literal("/catalog/datasets");
         path_.push_path_parameter(&dataset_rid);
         path_.push_literal("/testParam");
-        *request_.uri_mut() = path_.build();
+        *request_.uri_mut() = path_.try_build()?;
         conjure_http::private::encode_header_auth(&mut request_, auth_);
         conjure_http::private::encode_serializable_response_headers(&mut request_);
         request_
@@ -994,7 +994,7 @@ where
         path_.push_query_parameter("implicit", &implicit);
         path_.push_set_query_parameter("setEnd", &set_end);
         path_.push_optional_query_parameter("optionalEnd", &optional_end);
-        *request_.uri_mut() = path_.build();
+        *request_.uri_mut() = path_.try_build()?;
         conjure_http::private::encode_header_auth(&mut request_, auth_);
         conjure_http::private::encode_serializable_response_headers(&mut request_);
         request_
@@ -1029,7 +1029,7 @@ where
         path_.push_query_parameter("implicit", &implicit);
         path_.push_set_query_parameter("setEnd", &set_end);
         path_.push_optional_query_parameter("optionalEnd", &optional_end);
-        *request_.uri_mut() = path_.build();
+        *request_.uri_mut() = path_.try_build()?;
         conjure_http::private::encode_header_auth(&mut request_, auth_);
         conjure_http::private::encode_empty_response_headers(&mut request_);
         request_
@@ -1053,7 +1053,7 @@ where
         *request_.method_mut() = conjure_http::private::http::Method::GET;
         let mut path_ = conjure_http::private::UriBuilder::new();
         path_.push_literal("/catalog/boolean");
-        *request_.uri_mut() = path_.build();
+        *request_.uri_mut() = path_.try_build()?;
         conjure_http::private::encode_header_auth(&mut request_, auth_);
         conjure_http::private::encode_serializable_response_headers(&mut request_);
         request_
@@ -1077,7 +1077,7 @@ where
         *request_.method_mut() = conjure_http::private::http::Method::GET;
         let mut path_ = conjure_http::private::UriBuilder::new();
         path_.push_literal("/catalog/double");
-        *request_.uri_mut() = path_.build();
+        *request_.uri_mut() = path_.try_build()?;
         conjure_http::private::encode_header_auth(&mut request_, auth_);
         conjure_http::private::encode_serializable_response_headers(&mut request_);
         request_
@@ -1101,7 +1101,7 @@ where
         *request_.method_mut() = conjure_http::private::http::Method::GET;
         let mut path_ = conjure_http::private::UriBuilder::new();
         path_.push_literal("/catalog/integer");
-        *request_.uri_mut() = path_.build();
+        *request_.uri_mut() = path_.try_build()?;
         conjure_http::private::encode_header_auth(&mut request_, auth_);
         conjure_http::private::encode_serializable_response_headers(&mut request_);
         request_
@@ -1128,7 +1128,7 @@ where
         *request_.method_mut() = conjure_http::private::http::Method::POST;
         let mut path_ = conjure_http::private::UriBuilder::new();
         path_.push_literal("/catalog/optional");
-        *request_.uri_mut() = path_.build();
+        *request_.uri_mut() = path_.try_build()?;
         conjure_http::private::encode_header_auth(&mut request_, auth_);
         conjure_http::private::encode_serializable_response_headers(&mut request_);
         request_
@@ -1156,7 +1156,7 @@ where
         path_.push_literal("/catalog/optional-integer-double");
         path_.push_optional_query_parameter("maybeInteger", &maybe_integer);
         path_.push_optional_query_parameter("maybeDouble", &maybe_double);
-        *request_.uri_mut() = path_.build();
+        *request_.uri_mut() = path_.try_build()?;
         conjure_http::private::encode_header_auth(&mut request_, auth_);
         conjure_http::private::encode_empty_response_headers(&mut request_);
         request_
